@@ -453,6 +453,28 @@ func init() {
 				c.Distinct(call + "/" + behaviour + "/" + respTag(err))
 				c.Count(call + "." + respTag(err))
 			}
+			// a challenge that was USED still expires one longevity period after it was ISSUED (1 s here)
+			if round == 0 {
+				wl := W[1]
+				ch := e.data(wl.Address())
+				req := signedHash(wl, wl.Address(), ch)
+				time.Sleep(600 * time.Millisecond)
+				_, err1 := e.waiting(req)
+				_, errH := e.history(req)
+				time.Sleep(600 * time.Millisecond) // 1.2 s after the issue, 0.6 s after the last use
+				e.c.Line("EXPIRE")
+				_, err2 := e.waiting(req)
+				_, err3 := e.history(req)
+				note("waiting", "used-challenge-after-its-lifetime", err2)
+				_ = errH
+				// "accepted" = anything but the verification refusal (with nothing awaiting the call goes on to fail for another reason)
+				acc := func(err error) bool { return respTag(err) != "errVerification" }
+				_ = err3
+				if acc(err1) && acc(err2) {
+					c.Violate("C16", "used-challenge-outlives-its-issue-time", fmt.Sprintf("a challenge issued 1.2 s ago (longevity 1 s), used once at 0.6 s, is still accepted: waiting %v, history %v", err2, err3),
+						map[string]interface{}{"section": "notary", "scenario": "used-challenge"})
+				}
+			}
 			expireAt := map[int]bool{}
 			for i := 0; i < expiries; i++ {
 				expireAt[(i+1)*steps/(expiries+1)] = true
